@@ -70,8 +70,30 @@ def gen(rng, tier):
                                   spec="spec.cat %s %s" % (t, hexs(a + bb))))
                 cases.append(Case("shahist %s I U:%s k U:%s K F" % (t, hexs(a), hexs(bb)), "%s copy-fork a%%B=%d b=%d" % (t, a_len % b, b_len), True,
                                   spec="spec.cat %s %s %s" % (t, hexs(a), hexs(a + bb))))
+        # assignment: self-assignment, assignment onto a context that was in use, save (copy) / restore (assign) loops
+        for a_len in [0, 1, b - 9, b - 1, b, b + 1, 2 * b + 5, rng.randrange(0, top)]:
+            a = contents(rng, a_len, "rand"); bb = contents(rng, rng.choice([0, 1, 9, b]), "rand"); cc = contents(rng, rng.choice([1, 9, b + 2]), "rand"); junk = contents(rng, rng.choice([1, b - 1, b + 3]), "rand")
+            cases.append(Case("shahist %s I U:%s Y U:%s F" % (t, hexs(a), hexs(bb)), "%s self-assign a%%B=%d" % (t, a_len % b), True, spec="spec.cat %s %s" % (t, hexs(a + bb))))
+            cases.append(Case("shahist %s I U:%s G:%s U:%s F" % (t, hexs(a), hexs(junk), hexs(bb)), "%s assign-onto-used a%%B=%d" % (t, a_len % b), True, spec="spec.cat %s %s" % (t, hexs(a + bb))))
+            cases.append(Case("shahist %s I U:%s V U:%s F R U:%s F R U:%s F" % (t, hexs(a), hexs(bb), hexs(cc), hexs(bb)), "%s save-restore a%%B=%d" % (t, a_len % b), True,
+                              spec="spec.cat %s %s %s %s" % (t, hexs(a + bb), hexs(a + cc), hexs(a + bb))))
         # streaming HMAC
         klens = [0, 1, b - 1, b, b + 1, 2 * b + 1]
+        for kl in [1, b, b + 1]:
+            key = contents(rng, kl, "rand"); okey = contents(rng, rng.choice([1, b, b + 1]), "rand")
+            for a_len in [0, 1, b - 9, b, b + 3]:
+                a = contents(rng, a_len, "rand"); bb = contents(rng, rng.choice([0, 1, 9, b]), "rand"); cc = contents(rng, rng.choice([1, 9, b + 2]), "rand"); junk = contents(rng, rng.choice([1, b + 3]), "rand")
+                km = lambda m: hexs(key) + ":" + hexs(m)
+                cases.append(Case("hmachist %s I:%s U:%s Y U:%s F" % (t, hexs(key), hexs(a), hexs(bb)), "%s hmac self-assign a%%B=%d" % (t, a_len % b), True, spec="spec.hmaccat %s %s" % (t, km(a + bb))))
+                for ot in HASHES:       # assigned onto a context constructed for the same or for ANOTHER hash, which was in use
+                    cases.append(Case("hmachist %s I:%s U:%s G:%s:%s:%s U:%s F" % (t, hexs(key), hexs(a), ot, hexs(okey), hexs(junk), hexs(bb)),
+                                      "%s hmac assign-onto-used-%s a%%B=%d" % (t, "same" if ot == t else "other", a_len % b), True, spec="spec.hmaccat %s %s" % (t, km(a + bb))))
+                cases.append(Case("hmachist %s I:%s U:%s V U:%s F R U:%s F R U:%s F" % (t, hexs(key), hexs(a), hexs(bb), hexs(cc), hexs(bb)), "%s hmac save-restore a%%B=%d" % (t, a_len % b), True,
+                                  spec="spec.hmaccat %s %s %s %s" % (t, km(a + bb), km(a + cc), km(a + bb))))
+                # a final() rejected for a too-small buffer leaves the context as it was: retry, or go on updating
+                short = rng.choice([0, 1, DS[t] - 1])
+                cases.append(Case("hmachist %s I:%s U:%s f:%d F" % (t, hexs(key), hexs(a), short), "%s hmac rejected-final-retry a%%B=%d" % (t, a_len % b), True, spec="spec.hmaccat %s %s" % (t, km(a))))
+                cases.append(Case("hmachist %s I:%s U:%s f:%d U:%s F" % (t, hexs(key), hexs(a), short, hexs(bb)), "%s hmac rejected-final-continue a%%B=%d" % (t, a_len % b), True, spec="spec.hmaccat %s %s" % (t, km(a + bb))))
         for kl in [1, b, b + 1]:
             key = contents(rng, kl, "rand")
             for a_len in [0, 1, b - 9, b - 8, b, b + 3]:
